@@ -46,7 +46,7 @@ def _corresponds(leaf, all_leaves):
             return True
         if x is _MISSING or y is _MISSING:
             continue
-        if same(x, y) or (type(x) is type(y) and (hasattr(x, "__next__") or repr(x) == repr(y))):
+        if same(x, y) or (type(x) is type(y) and (hasattr(x, "__next__") or codec.srepr(x) == codec.srepr(y))):
             return True
     return False
 
